@@ -325,20 +325,25 @@ theorem safe64 (P : Params UInt32) (hl : P.lenBytes = 8) (hc : P.corruptAfterAdd
   refine ⟨by omega, fun h8 => ?_⟩
   simp [corrupt64]; omega
 
-/-- the counter test of sha384-512.c as compiled (32-bit words): safe below 2^96 bits -/
+/-- the counter test of sha384-512.c (four 32-bit words) is true exactly when the 128-bit value is below 8, i.e. exactly after a
+    wrap of the counter (it moves in steps of 8 from 0) -/
+theorem corrupt128w_iff (l : Nat) (hl : l < 2 ^ 128) : corrupt128w l = true ↔ l < 8 := by
+  unfold corrupt128w
+  simp only [Bool.and_eq_true, decide_eq_true_eq, beq_iff_eq]
+  constructor
+  · rintro ⟨⟨⟨h0, h1⟩, h2⟩, h3⟩; omega
+  · intro h; refine ⟨⟨⟨?_, ?_⟩, ?_⟩, ?_⟩ <;> omega
+
+/-- the 128-bit counter of sha384-512.c: safe below 2^128 bits -/
 theorem safe128w (P : Params UInt64) (hl : P.lenBytes = 16) (hc : P.corruptAfterAdd = corrupt128w) (n : Nat)
-    (h : 8 * n < 2 ^ 96) : Safe P n := by
+    (h : 8 * n < 2 ^ 128) : Safe P n := by
   intro L hL
   rw [hl, hc]
   refine ⟨by omega, fun h8 => ?_⟩
-  unfold corrupt128w
-  have hL96 : L < 2 ^ 96 := by omega
-  by_cases h1 : L % 2 ^ 32 = 0
-  · by_cases h2 : L / 2 ^ 32 % 2 ^ 32 = 0
-    · have h3 : ¬ (L / 2 ^ 64 % 2 ^ 32 = 0) := by omega
-      simp [h3]
-    · simp [h2]
-  · simp [h1]
+  have hlt : L < 2 ^ 128 := by omega
+  cases hcase : corrupt128w L with
+  | false => rfl
+  | true => exact absurd ((corrupt128w_iff L hlt).mp hcase) (by omega)
 
 /-- SHA-224 streaming (sha224-256.c) = FIPS 180-4 -/
 theorem sha224_streaming (chunks : List (List UInt8)) (hlen : 8 * chunks.flatten.length < 2 ^ 64) :
@@ -350,12 +355,12 @@ theorem sha256_streaming' (chunks : List (List UInt8)) (hlen : 8 * chunks.flatte
   rw [sha256_eq]; exact run_eq sha256P (by decide) chunks (safe64 _ rfl rfl _ hlen)
 
 /-- SHA-384 streaming (sha384-512.c) = FIPS 180-4 -/
-theorem sha384_streaming (chunks : List (List UInt8)) (hlen : 8 * chunks.flatten.length < 2 ^ 96) :
+theorem sha384_streaming (chunks : List (List UInt8)) (hlen : 8 * chunks.flatten.length < 2 ^ 128) :
     run sha384P chunks = some (Sha512.sha384 chunks.flatten) := by
   rw [sha384_eq]; exact run_eq sha384P (by decide) chunks (safe128w _ rfl rfl _ hlen)
 
 /-- SHA-512 streaming (sha384-512.c) = FIPS 180-4 -/
-theorem sha512_streaming (chunks : List (List UInt8)) (hlen : 8 * chunks.flatten.length < 2 ^ 96) :
+theorem sha512_streaming (chunks : List (List UInt8)) (hlen : 8 * chunks.flatten.length < 2 ^ 128) :
     run sha512P chunks = some (Sha512.sha512 chunks.flatten) := by
   rw [sha512_eq]; exact run_eq sha512P (by decide) chunks (safe128w _ rfl rfl _ hlen)
 
